@@ -278,6 +278,9 @@ func Main(t *testing.T, p Prop) {
 		// run exactly one generated run (used by the supervisor to attribute a crash)
 		rs := envU64("VERIF_REPLAY_SEED", 0)
 		o := runOne(simrt.NewTape(rs))
+		if o.Res != nil {
+			fmt.Printf("REPLAYSEED seed=%d steps=%d draws=%d log=%s sched=%s verdict=%q\n", rs, o.Res.Steps, o.Res.Draws, o.Res.LogHash, o.Res.SchedHash, o.Res.Verdict)
+		}
 		if len(o.Violations) > 0 {
 			v := o.Violations[0]
 			wr.Violation = &Replay{Property: p.ID, RunSeed: rs, Oracle: v.Oracle, Msg: v.Msg, LogHash: o.Res.LogHash, LogTail: o.Res.LogTail, Sample: o.Sample}
